@@ -40,7 +40,8 @@ def random_case(prop, rng, tier):
             if t['other'] and t['parent'] is None and mine:
                 t['id'] = rng.choice(mine)
     return {'tasks': tasks, 'links': links, 'fields': fields, 'children': rng.random() < 0.7, 'theme': theme,
-            'what': rng.choice(['wbs', 'task', 'list', 'preds']), 'usage': rng.random() < 0.2}
+            'what': rng.choice(['wbs', 'task', 'list', 'preds']), 'usage': rng.random() < 0.2,
+            'usageStart': rng.choice([[2024, 1, 1], [2024, 1, 29], [2024, 12, 30], [2024, 2, 26]])}
 
 
 def build(case):
@@ -188,7 +189,8 @@ def usage_table_ok(case):
     for i, t in enumerate(case['tasks']):
         w // Task(i + 1, f't{i}', resource=t['resource'], estimate=(t['estimate'] or 0) % 50)
     fam_sched.set_clock([fam_sched.to_us(datetime(2023, 12, 1))])
-    sch = ForwardScheduler(start=datetime(2024, 1, 1), resources=[Resource('ann', WeeklyCalendar(days=[0, 2, 4], units_per_day=4))]).calc(w)
+    y, mo, d = case.get('usageStart', [2024, 1, 1])
+    sch = ForwardScheduler(start=datetime(y, mo, d), resources=[Resource('ann', WeeklyCalendar(days=[0, 2, 4], units_per_day=4))]).calc(w)
     rows = sch.resource_usage.rows()
     text = repr(sch.resource_usage)
     if not rows:
